@@ -14,7 +14,7 @@ import json, os, collections
 from concurrent.futures import ThreadPoolExecutor
 import vlib
 
-PROPERTIES = ["C35", "C19"]
+PROPERTIES = ["C35", "C19", "C33"]
 
 
 def _mismatches(mon):
@@ -278,7 +278,96 @@ def run_c19(ctx, pid):
     ctx.evidence("model_checking", cov, assumptions)
 
 
+# ------------------------------------------------------------------------------------------------ C33
+def run_c33(ctx, pid):
+    quick = ctx.quick
+    R = "Relocation"
+    res = _parallel([lambda: ctx.build("clusterops"),
+                     lambda: ctx.tlc_must_hold(R, "MC_Run.cfg" if quick else "MC_Run_t.cfg", module="MC_Run", deadlock_check=False, timeout=2400, workers=2 if quick else 4),
+                     lambda: _gen(ctx, R, "Gen_Run.cfg", "Gen_Run"),
+                     lambda: _gen(ctx, R, "Sim_Run.cfg", "Gen_Run", simulate="num=%d" % (40 if quick else 300), depth=60)], width=4)
+    exe, mc, one, two = res
+    ctx.log("design: %d distinct states; once-per-departure / accounting invariants and completion hold" % mc.distinct)
+    if len(one) < 300 or len(two) < 20:
+        raise vlib.Infra("behaviour generation produced too little (%d/%d)" % (len(one), len(two)))
+
+    def dedup(bs):
+        seen, out = set(), []
+        for b in bs:
+            k = json.dumps(b, sort_keys=True)
+            if k not in seen:
+                seen.add(k)
+                out.append(b)
+        return out
+    one, two = dedup(one), dedup(two)
+    # every environment class is kept in the sample: no failure, an item nobody can recreate, one peer down, all peers down
+    classes = collections.defaultdict(list)
+    for b in one:
+        classes[(bool(b["bad"]), len(b["down"]))].append(b)
+    per = 7 if quick else 45
+    sample1 = []
+    for k in sorted(classes):
+        sample1 += vlib.sample(ctx.rng, classes[k], per)
+    sample2 = vlib.sample(ctx.rng, two, 14 if quick else 120)
+    behaviours = sample1 + sample2
+    bfile = ctx.tmp("reloc-behaviours.ndjson")
+    vlib.write_ndjson(bfile, behaviours)
+    ctx.log("behaviours: %d (one departed node: %d of %d, two departed nodes: %d of %d)" % (len(behaviours), len(sample1), len(one), len(sample2), len(two)))
+
+    trace = ctx.tmp("reloc-trace.ndjson")
+    p = ctx.run([exe, "reloc", bfile, trace], timeout=2400, env={"VERIF_RELOC_WIDTH": "4"})
+    stats = json.loads(p.stdout.strip().splitlines()[-1])
+    rows = vlib.read_ndjson(trace)
+    mon, conf = _parallel([
+        lambda: ctx.tlc(R, "Trace_RunMon.cfg", dfs=True, files={"trace.ndjson": trace}, timeout=1500),
+        lambda: ctx.tlc(R, "Trace_Run.cfg", dfs=True, files={"trace.ndjson": trace}, timeout=1500, expect_fail=True)])
+    if mon.depth != len(rows) + 1:
+        raise vlib.Infra("monitor did not consume the whole trace (%d of %d)" % (mon.depth - 1, len(rows)))
+    mism = _mismatches(mon)
+    drift = []
+    if stats["drifts"]:
+        drift.append("%d behaviours left the model's path (%s)" % (stats["drifts"], stats["first_drift"]))
+    if conf.violated or conf.error or conf.depth != len(rows) + 1:
+        drift.append("trace rejected at line %d of %d: %s" % (conf.depth, len(rows), json.dumps(rows[min(conf.depth, len(rows)) - 1])[:160]))
+    items = [r for r in rows if r.get("op") == "Item"]
+    cov = {
+        "states": ctx.states()[0], "transitions": ctx.states()[1],
+        "traces_validated_against_impl": len(behaviours),
+        "samples": [[[s_["act"], s_["a"], s_["i"]] for s_ in b["steps"]] + [b["bad"], b["down"]] for b in (behaviours[0], behaviours[len(sample1) - 1], behaviours[-1])],
+        "evaluations": len(behaviours),
+        "distinct_nontrivial": len({json.dumps(b, sort_keys=True) for b in behaviours if sum(s_["act"] == "NodeLeft" for s_ in b["steps"]) >= 2 and (b["bad"] or b["down"])}),
+        "rule": "departure histories: interleavings of NodeLeft notifications (duplicates before the worker exists, while it runs, after it relocated, "
+                "after completion) with the relocator / worker steps for one departed node (TLC BFS, all environments: items no survivor can recreate, "
+                "unreachable peers; seeded sample per environment class) and TLC random walks for two departed nodes; non-trivial = a duplicate "
+                "notification and a failing item or peer",
+        "exhaustive": False, "events_validated": len(rows), "items_accounted": len(items),
+        "items_recreated": sum(1 for r in items if r["non"] == 1), "items_reported_failed": sum(1 for r in items if r["non"] == 0),
+        "failed_events": sum(1 for r in rows if r.get("op") == "Event" and r.get("kind") == "Failed"),
+        "conformance_drift": "; ".join(drift) or None, "monitor_mismatches": len(mism),
+    }
+    assumptions = ["the leader, the peers and the departed nodes are real actor systems in one process; the cluster registry and membership are a fake olric "
+                   "map / client under goakt's real cluster engine; RelocateBatch travels over real TCP remoting between them; an unreachable peer is a "
+                   "remoting client wrapper that refuses RelocateBatch for that peer; an item that cannot be recreated is an actor kind no survivor registered",
+                   "the worker is gated at two hook points (before relocate(), before its completion bookkeeping); interleavings inside relocate() and the "
+                   "placement itself (C32) are not explored; grains and singletons are not part of the departed nodes' state",
+                   "the sample of behaviours is seeded; the design model is checked exhaustively within its bounds"]
+    if mism:
+        m = mism[0]
+        snippet = ctx.tmp("violation.ndjson")
+        vlib.write_ndjson(snippet, _cut(rows, int(m[0])))
+        rp = ctx.save_replay("seed%d" % ctx.seed, snippet)
+        ctx.evidence("model_checking", cov, assumptions, violations=len(mism))
+        codes = collections.Counter(x[2] for x in mism)
+        raise vlib.Violation(pid, rp, "monitor: %s (behaviour %s, trace line %s, values %s / %s; %d mismatches: %s)"
+                             % (m[2], m[1], m[0], m[3], m[4], len(mism), dict(codes)))
+    for d in drift:
+        ctx.log("conformance drift (not a verdict): " + d)
+    ctx.evidence("model_checking", cov, assumptions)
+
+
 def run(ctx, pid):
+    if pid == "C33":
+        return run_c33(ctx, pid)
     if pid == "C35":
         return run_c35(ctx, pid)
     if pid == "C19":
